@@ -110,6 +110,18 @@ def run_shard(shard, ctx):
         for nested in ("dynamic-image", "fixed-footer", "cxsparse"):
             for flen in (512, 511):
                 run_case({"kind": "fixed", "nsec": 64, "flen": flen, "nested": nested}, ctx)
+        # 4200 blocks looked up one after the other, twice (more distinct table entries than any plausible entry cache holds),
+        # then the first ones again
+        n = 4200
+        states = [DATA if i % 7 == 0 else HOLE for i in range(n)]
+        nd = sum(1 for x in states if x == DATA)
+        slots, k = [], 0
+        for x in states:
+            slots.append((k * 37) % nd if x == DATA else None)
+            k += x == DATA
+        sweep = [[i * 8 + (i % 8), 1] for i in range(n)]
+        run_case({"kind": "dyn", "geom": dict(spb=8, W=n, cut=0, extra=0, layout="std", flen=512, big=True), "states": states,
+                  "slots": slots, "sector_requests": sweep + sweep + sweep[:200] + [[0, 64], [7 * 8 - 1, 10]], "requests": [[0, 70000]]}, ctx)
 
 
 def run_case(case, ctx):
